@@ -107,4 +107,9 @@ RollupLevelsOK == pc = "done" /\ rollup => \A k \in 1..NLev :
 NoRollupNoLevels == pc = "done" /\ ~rollup => \A k \in 1..NLev : outLev[k] = <<>>
 \* safety during the scan: what has been emitted so far is duplicate free and sorted
 PrefixSorted == SortedDesc(RowsF, outPsm)
+\* C05: on tables without ties inside a group the result is a function of the table and the flags only
+\* (chunk size, sort order among ties and merge-list order do not appear in it)
+OutcomeIsF == pc = "done" /\ TieFreeInGroups(RowsF, Ids, NLev) =>
+                 /\ SeqSet(outPsm) = UniquePsm(RowsF, Ids, dedup)
+                 /\ rollup => \A k \in 1..NLev : SeqSet(outLev[k]) = UniqueLevel(RowsF, UniquePsm(RowsF, Ids, dedup), k)
 =============================================================================
